@@ -381,9 +381,12 @@ func (w *walker) forStmt(s *ast.ForStmt, label string, st *state, k func(*state)
 				}
 				// a conditional loop is cut after Unroll iterations: the remaining iterations are
 				// summarised by forgetting everything the loop assigns, then the loop is left
+				// — under its exit condition: the condition is evaluated once more on the forgotten
+				// state; only its false outcome leaves the loop (so "the loop ended" always comes with
+				// the decision that ended it, also when the condition is an attempt helper's result)
 				st = st.clone()
 				w.havoc(st, s.Body, s.Post)
-				k(st)
+				w.cond(s.Cond, st, func(st *state) { w.finish(st, EndLoopCut) }, func(st *state) { k(st) })
 				return
 			}
 			st = w.pushCtl(st, ctl{label: label, isLoop: true,
